@@ -189,3 +189,18 @@ CHECKS["C02"] = {
     "level_note": "Trusted: dialect lexers for locating placeholders; SQLite 3.40.1 for R.rows. Literal correctness itself is C03's subject.",
     "min_nontrivial": 300,
 }
+
+CHECKS["C09"] = {
+    "parts": BASE,
+    "level": "exploration",
+    "technique": "runtime monitor: the three backends' renderings of one portable statement are transliterated token-by-token to SQLite spelling (lexers decode/re-encode literals and identifiers; nothing but spelling is rewritten) and executed on the real SQLite engine; rows and table snapshots compared pairwise, both modes",
+    "rule": "portable statements from the generator (SELECT with DISTINCT, expressions, aliases, inner/left/cross joins, FROM-subqueries, WHERE, GROUP BY, HAVING, flat set-operation chains, ORDER BY with NULLS FIRST/LAST and FIELD, LIMIT+OFFSET, subqueries, plain and recursive CTEs, CASE, IFNULL/COALESCE, GREATEST/LEAST, CHAR_LENGTH; INSERT VALUES/SELECT; UPDATE and DELETE with WHERE); 6 executions per statement (3 backends x inline/parameterised); non-trivial = >= 3 clause kinds; distinct = distinct SQLite renderings",
+    "assumptions": [
+        "transliteration rewrites only: identifier quotes, $n -> ?, literal syntax (decoded with the source dialect's rules, re-encoded for SQLite), parentheses around set-operation operands, VALUES ROW(..) -> VALUES (..), and the documented function names GREATEST/LEAST -> MAX/MIN, CHAR_LENGTH -> LENGTH, RAND -> RANDOM; MySQL's `expr IS NULL ASC, expr` emulation is left as is, because its equivalence is under test",
+        "a statement whose SQLite rendering the engine rejects is inconclusive here (it is C07's subject)",
+    ],
+    "design_ref": "DESIGN.md §5 C09",
+    "level_text": "The relation between the three outputs of one statement is executed: after a purely lexical transliteration all six renderings must return identical rows (ordered where the order is total) and leave identical tables on the same fixture, whose order columns contain NULLs and ties so that NULL-ordering emulations are observable.",
+    "level_note": "Trusted: the dialect lexers/decoders used for transliteration and SQLite as the common executor (MySQL/Postgres engines are not available; engine-specific semantics beyond syntax are out of reach).",
+    "min_nontrivial": 200,
+}
